@@ -182,7 +182,7 @@ struct ExprCase {
     origin: &'static str,
 }
 
-const MUT_PIECES: &[&str] = &[")", "(", "+", "not", "..", ",", "]", "[", ".", ":", "x", "1", "^", "-", "==", "and", "#", "\"s\"", "nil"];
+const MUT_PIECES: &[&str] = &["{", "}", "=", "function", "end", ")", "(", "+", "not", "..", ",", "]", "[", ".", ":", "x", "1", "^", "-", "==", "and", "#", "\"s\"", "nil"];
 
 fn mutate(text: &str, rng: &mut Rng) -> String {
     let mut p: Vec<String> = text.split(' ').map(|s| s.to_string()).collect();
@@ -243,7 +243,10 @@ fn check_exprs(cases: &[ExprCase], report: &mut Report, r55: &mut Ref55, seen: &
         }
         report.count(&format!("expr_{}", c.origin));
         // ---- tie
-        if let Some(s) = m.strip_prefix("ok ") {
+        if lex_errs > 0 {
+            // the mutation damaged a token (unfinished string …): the token-kind model is not the judge
+            report.count("expr_lexer_error_not_compared");
+        } else if let Some(s) = m.strip_prefix("ok ") {
             report.count("expr_model_accepts");
             if real.errors != 0 || real.statements != 1 || rendered != s {
                 report.mismatch(json!({"input": expr_input(c), "model": m, "impl": {"errors": real.errors, "first_error": real.first_error,
